@@ -707,6 +707,21 @@ def r10_bit_loop_and_decode_siblings(idx, r):
         dec = any(isinstance(c, ast.Call) and dotted(c.func) in ("np.char.decode", "numpy.char.decode") for c in ast.walk(f.node))
         r.require(dec, f"{f.name}:decodes-bytes", f, node=pulls[0],
                   msg=f"{f.name} reads parameter datasets but, unlike its sibling readers, never decodes bytes to str: string parameters (xsType, envGroup) come back as b'A'")
+    # (c) the same for a parameter's own Serializer (flags are stored as packed bytes plus an order map): a reader that hands stored
+    # values on must run pDef.serializer.unpack, directly or through a helper of the class that does
+    def unpacks(fn, depth=0):
+        for c in ast.walk(fn.node):
+            if isinstance(c, ast.Call) and call_attr(c) == "unpack" and "serializer" in norm(c.func):
+                return True
+            if isinstance(c, ast.Call) and isinstance(c.func, ast.Attribute) and norm(c.func.value) in ("self", "Database") and depth < 2:
+                g = db.methods.get(c.func.attr)
+                if g is not None and g is not fn and unpacks(g, depth + 1):
+                    return True
+        return False
+    for f, pulls in readers:
+        r.require(unpacks(f), f"{f.name}:applies-the-parameter-serializer", f, node=pulls[0],
+                  msg=f"{f.name} reads parameter datasets but, unlike Database._readParams, never runs the parameter's Serializer: a flags history comes back as the stored byte rows "
+                      "(and a reordered flag definition is not applied), while the current step taken from memory is a Flags object")
 
 
 def r11_flag_collision_guard(idx, r):
